@@ -23,15 +23,17 @@ import (
 func TestMain(m *testing.M) { ev.Main(m) }
 
 const (
-	sigPartial = "partial-write-destroys-store"
+	sigPartial  = "partial-write-destroys-store"
 	sigNotSaved = "acknowledged-change-not-saved-on-stop"
 )
 
+var scratchOnce sync.Once
+var scratchBase string
+
+// workDir is where per-case store directories are created (see credx.ScratchBase).
 func workDir() string {
-	if d := os.Getenv("VERIF_WORK"); d != "" {
-		return d
-	}
-	return os.TempDir()
+	scratchOnce.Do(func() { scratchBase = credx.ScratchBase("verif-c20-") })
+	return scratchBase
 }
 
 func envInt(name string, def int) int {
@@ -185,7 +187,7 @@ func TestFaultEnumeration(t *testing.T) {
 		}
 		cases = mine
 	}
-	base, err := os.MkdirTemp(workDir(), "c20f-")
+	base, err := os.MkdirTemp(workDir(), "verif-c20-f-")
 	if err != nil {
 		t.Fatal(err)
 	}
@@ -282,10 +284,10 @@ func TestFaultEnumeration(t *testing.T) {
 		if nBad > 0 {
 			msg := fmt.Sprintf("SIG=C20/%s case %s: previous store %q, change %s(%s) acknowledged, then %d of %d fault points left a store that is neither the previous nor the new document; e.g. %s",
 				sigPartial, class, prevDoc, sp.Op.Op, sp.Op.Name, nBad, len(j.out.Results), firstBad)
-			if ev.IsKnown("C20", sigPartial) {
+			if isKnown(sigPartial) {
 				knownCount += nBad
 				for i := 0; i < nBad; i++ {
-					recFaults.KnownHit(sigPartial)
+					recFaults.KnownHit(listedSig(sigPartial))
 				}
 			} else {
 				violations = append(violations, msg)
@@ -318,7 +320,7 @@ var recFaultsRandom = ev.New("C20", "write-fault-random-stores",
 		"(boundaries 0,1,len-1,len plus uniform); same oracle as write-fault-enumeration. Non-trivial: 0<k<len and save attempted")
 
 func TestFaultRandomStores(t *testing.T) {
-	base, err := os.MkdirTemp(workDir(), "c20r-")
+	base, err := os.MkdirTemp(workDir(), "verif-c20-r-")
 	if err != nil {
 		t.Fatal(err)
 	}
@@ -384,8 +386,8 @@ func TestFaultRandomStores(t *testing.T) {
 			v := judge(r.File, kl, stores, pu, nuu, base, cache)
 			inside := r.K > 0 && r.K < out.NewDocLen
 			if v.set == "" {
-				if ev.IsKnown("C20", sigPartial) {
-					recFaultsRandom.KnownHit(sigPartial)
+				if isKnown(sigPartial) {
+					recFaultsRandom.KnownHit(listedSig(sigPartial))
 					continue
 				}
 				rt.Fatalf("SIG=C20/%s previous store %s, %s(%s) acknowledged, save via %s limited to k=%d of %d bytes: store file is now %q: %s",
